@@ -58,6 +58,18 @@ Blocks/DownloaderLTS.vos Blocks/DownloaderLTS.vok Blocks/DownloaderLTS.required_
 Blocks/DownloaderProofs.vo Blocks/DownloaderProofs.glob Blocks/DownloaderProofs.v.beautified Blocks/DownloaderProofs.required_vo: Blocks/DownloaderProofs.v Base/Prelude.vo Gen/Consts.vo Blocks/Reach.vo Blocks/DownloaderLTS.vo
 Blocks/DownloaderProofs.vio: Blocks/DownloaderProofs.v Base/Prelude.vio Gen/Consts.vio Blocks/Reach.vio Blocks/DownloaderLTS.vio
 Blocks/DownloaderProofs.vos Blocks/DownloaderProofs.vok Blocks/DownloaderProofs.required_vos: Blocks/DownloaderProofs.v Base/Prelude.vos Gen/Consts.vos Blocks/Reach.vos Blocks/DownloaderLTS.vos
+Blocks/Merkle.vo Blocks/Merkle.glob Blocks/Merkle.v.beautified Blocks/Merkle.required_vo: Blocks/Merkle.v Base/Prelude.vo
+Blocks/Merkle.vio: Blocks/Merkle.v Base/Prelude.vio
+Blocks/Merkle.vos Blocks/Merkle.vok Blocks/Merkle.required_vos: Blocks/Merkle.v Base/Prelude.vos
+Blocks/MerkleProofs.vo Blocks/MerkleProofs.glob Blocks/MerkleProofs.v.beautified Blocks/MerkleProofs.required_vo: Blocks/MerkleProofs.v Base/Prelude.vo Blocks/Merkle.vo
+Blocks/MerkleProofs.vio: Blocks/MerkleProofs.v Base/Prelude.vio Blocks/Merkle.vio
+Blocks/MerkleProofs.vos Blocks/MerkleProofs.vok Blocks/MerkleProofs.required_vos: Blocks/MerkleProofs.v Base/Prelude.vos Blocks/Merkle.vos
+Blocks/BlockHandler.vo Blocks/BlockHandler.glob Blocks/BlockHandler.v.beautified Blocks/BlockHandler.required_vo: Blocks/BlockHandler.v Base/Prelude.vo
+Blocks/BlockHandler.vio: Blocks/BlockHandler.v Base/Prelude.vio
+Blocks/BlockHandler.vos Blocks/BlockHandler.vok Blocks/BlockHandler.required_vos: Blocks/BlockHandler.v Base/Prelude.vos
+Blocks/BlockHandlerProofs.vo Blocks/BlockHandlerProofs.glob Blocks/BlockHandlerProofs.v.beautified Blocks/BlockHandlerProofs.required_vo: Blocks/BlockHandlerProofs.v Base/Prelude.vo Blocks/BlockHandler.vo
+Blocks/BlockHandlerProofs.vio: Blocks/BlockHandlerProofs.v Base/Prelude.vio Blocks/BlockHandler.vio
+Blocks/BlockHandlerProofs.vos Blocks/BlockHandlerProofs.vok Blocks/BlockHandlerProofs.required_vos: Blocks/BlockHandlerProofs.v Base/Prelude.vos Blocks/BlockHandler.vos
 Blocks/Manager.vo Blocks/Manager.glob Blocks/Manager.v.beautified Blocks/Manager.required_vo: Blocks/Manager.v Base/Prelude.vo
 Blocks/Manager.vio: Blocks/Manager.v Base/Prelude.vio
 Blocks/Manager.vos Blocks/Manager.vok Blocks/Manager.required_vos: Blocks/Manager.v Base/Prelude.vos
@@ -109,3 +121,6 @@ Props/C06.vos Props/C06.vok Props/C06.required_vos: Props/C06.v Base/Prelude.vos
 Props/C16.vo Props/C16.glob Props/C16.v.beautified Props/C16.required_vo: Props/C16.v Base/Prelude.vo Gen/Consts.vo Blocks/Reach.vo Blocks/DownloaderLTS.vo Blocks/DownloaderProofs.vo Blocks/Manager.vo Blocks/ManagerProofs.vo
 Props/C16.vio: Props/C16.v Base/Prelude.vio Gen/Consts.vio Blocks/Reach.vio Blocks/DownloaderLTS.vio Blocks/DownloaderProofs.vio Blocks/Manager.vio Blocks/ManagerProofs.vio
 Props/C16.vos Props/C16.vok Props/C16.required_vos: Props/C16.v Base/Prelude.vos Gen/Consts.vos Blocks/Reach.vos Blocks/DownloaderLTS.vos Blocks/DownloaderProofs.vos Blocks/Manager.vos Blocks/ManagerProofs.vos
+Props/C04.vo Props/C04.glob Props/C04.v.beautified Props/C04.required_vo: Props/C04.v Base/Prelude.vo Blocks/Merkle.vo Blocks/MerkleProofs.vo Blocks/BlockHandler.vo Blocks/BlockHandlerProofs.vo
+Props/C04.vio: Props/C04.v Base/Prelude.vio Blocks/Merkle.vio Blocks/MerkleProofs.vio Blocks/BlockHandler.vio Blocks/BlockHandlerProofs.vio
+Props/C04.vos Props/C04.vok Props/C04.required_vos: Props/C04.v Base/Prelude.vos Blocks/Merkle.vos Blocks/MerkleProofs.vos Blocks/BlockHandler.vos Blocks/BlockHandlerProofs.vos
